@@ -1,4 +1,814 @@
-//! C06 — stub, not built yet.
+//! C06 — parsing cursor.
+//! Correspondence: one request line per sequence (`C06 <tok>*`, see lean/XehModel/Driver/C06.lean);
+//! every word is run with its own `Xstate::eval` on one booted interpreter, arguments go in through
+//! `push_data`; after every word the relative offset, `remain`, the input bits and the visible data
+//! stack are reported.
+//! Oracle (implementation only): an independent `(Vec<bool>, pos, stash)` reference cursor; the
+//! property's statements are checked directly after every word (see `oracle_step`).
+use super::gen::*;
+use crate::canon;
 use crate::Ctx;
+use xeh::prelude::*;
 
-pub fn run(_ctx: &mut Ctx) {}
+pub const READ_FIXED: &[&str] = &[
+    "u8", "u8le", "u8be", "u16", "u16le", "u16be", "u32", "u32le", "u32be", "u64", "u64le", "u64be",
+    "i8", "i8le", "i8be", "i16", "i16le", "i16be", "i32", "i32le", "i32be", "i64", "i64le", "i64be",
+    "f32", "f32le", "f32be", "f64", "f64le", "f64be",
+];
+
+/// what is visible of the cursor after a word
+#[derive(Clone)]
+pub struct Obs {
+    pub bits: Vec<bool>,
+    pub start: usize,
+    pub end: usize,
+    pub offset: i128,
+    pub remain: Option<i128>,
+    pub stack: Vec<Cell>,
+}
+
+impl Obs {
+    pub fn rel(&self) -> i128 {
+        self.offset - self.start as i128
+    }
+}
+
+pub fn bits_vec(b: &Xbitstr) -> Vec<bool> {
+    b.bits().map(|x| x == 1).collect()
+}
+
+pub fn observe(xs: &mut Xstate) -> Option<Obs> {
+    crate::guarded(|| {
+        let (bits, start, end) = match xs.get_var_value("input").unwrap().value() {
+            Cell::Bitstr(b) => (bits_vec(b), b.start(), b.end()),
+            _ => (vec![], 0, 0),
+        };
+        let offset = match xs.get_var_value("offset").unwrap().value() {
+            Cell::Int(i) => *i,
+            _ => -1,
+        };
+        let depth = xs.data_depth();
+        let remain = match xs.eval("remain") {
+            Ok(()) => match xs.pop_data() {
+                Ok(c) => match c.value() {
+                    Cell::Int(i) => Some(*i),
+                    _ => None,
+                },
+                _ => None,
+            },
+            Err(_) => None,
+        };
+        while xs.data_depth() > depth {
+            let _ = xs.pop_data();
+        }
+        Obs { bits, start, end, offset, remain, stack: canon::stack(xs) }
+    })
+}
+
+pub fn bits_str(b: &[bool]) -> String {
+    let mut s = String::with_capacity(b.len() + 1);
+    s.push('b');
+    s.extend(b.iter().map(|x| if *x { '1' } else { '0' }));
+    s
+}
+
+/// build a bit-string whose value is `body` but which lives at bit `pre` of a longer buffer
+pub fn embed(r: &mut crate::rng::Rng, body: &[bool], pre: usize, post: usize) -> Xbitstr {
+    let mut all: Vec<bool> = (0..pre).map(|_| r.bool()).collect();
+    all.extend_from_slice(body);
+    all.extend((0..post).map(|_| r.bool()));
+    let whole = bitstr_from_bits(&all);
+    whole.substr(pre, pre + body.len()).unwrap()
+}
+
+fn gen_body(r: &mut crate::rng::Rng) -> Vec<bool> {
+    let nbits = match r.below(12) {
+        0 => 0,
+        1 => r.below(8),
+        2 => *r.pick(&[127usize, 128, 129, 64, 65, 63, 32, 33]),
+        3 => 130 + r.below(200),
+        4..=8 => 8 * r.below(24),
+        _ => r.below(120),
+    };
+    let mut v = Vec::with_capacity(nbits);
+    // bytes from a small alphabet so that NUL bytes and repeated patterns occur
+    while v.len() < nbits {
+        let byte: u8 = match r.below(8) {
+            0 | 1 => 0,
+            2 => b'A',
+            3 => b'B',
+            4 => 0xff,
+            5 => 0x80,
+            _ => r.next_u64() as u8,
+        };
+        for k in (0..8).rev() {
+            if v.len() < nbits {
+                v.push((byte >> k) & 1 == 1);
+            }
+        }
+    }
+    v
+}
+
+pub fn gen_input(r: &mut crate::rng::Rng) -> Xbitstr {
+    let body = gen_body(r);
+    let pre = match r.below(6) {
+        0 => 0,
+        1 => 8 * r.below(3),
+        _ => r.below(19),
+    };
+    let post = if r.bool() { 0 } else { r.below(10) };
+    embed(r, &body, pre, post)
+}
+
+fn huge(r: &mut crate::rng::Rng) -> i128 {
+    *r.pick(&[
+        1i128 << 31,
+        (1i128 << 31) - 1,
+        1i128 << 32,
+        1i128 << 61,
+        (1i128 << 61) - 1,
+        (1i128 << 61) + 1,
+        1i128 << 63,
+        (1i128 << 63) - 1,
+        (1i128 << 64) - 1,
+        (1i128 << 64) - 8,
+        1i128 << 64,
+        (1i128 << 64) + 1,
+        1i128 << 127 - 1,
+        i128::MAX,
+        -1,
+        -8,
+        -(1i128 << 63),
+        i128::MIN,
+    ])
+}
+
+fn wrong_type(r: &mut crate::rng::Rng) -> Cell {
+    match r.below(5) {
+        0 => Cell::Real(gen_real(r)),
+        1 => Cell::from(gen_str(r)),
+        2 => Cell::Nil,
+        _ => gen_other(r),
+    }
+}
+
+/// size argument for a read of `unit`-bit units with `remain` bits left
+fn gen_size(r: &mut crate::rng::Rng, remain: usize, unit: usize) -> Cell {
+    let units = remain / unit;
+    let v: i128 = match r.below(20) {
+        0..=7 => r.below(units + 1) as i128,
+        8 | 9 => r.below(units.min(16) + 1) as i128,
+        10 | 11 => units as i128,
+        12 | 13 => units as i128 + 1,
+        14 => units as i128 + 1 + r.below(9) as i128,
+        15 => 0,
+        _ => huge(r),
+    };
+    let c = Cell::Int(v);
+    if r.chance(5) {
+        tag_it(r, c)
+    } else {
+        c
+    }
+}
+
+fn gen_width(r: &mut crate::rng::Rng, remain: usize) -> Cell {
+    let v: i128 = match r.below(10) {
+        0..=3 => *r.pick(&[0i128, 1, 2, 7, 8, 9, 12, 15, 16, 17, 31, 32, 33, 63, 64, 65, 100, 126, 127, 128, 129, 130]),
+        4 | 5 => r.below(remain.min(130) + 1) as i128,
+        6 => remain as i128,
+        7 => remain as i128 + 1,
+        8 => r.below(140) as i128,
+        _ => huge(r),
+    };
+    Cell::Int(v)
+}
+
+fn gen_float_width(r: &mut crate::rng::Rng) -> Cell {
+    Cell::Int(match r.below(10) {
+        0..=3 => 32,
+        4..=6 => 64,
+        7 => *r.pick(&[0i128, 1, 8, 16, 31, 33, 63, 65, 128]),
+        8 => r.below(70) as i128,
+        _ => huge(r),
+    })
+}
+
+/// independent decoders over a plain bit vector
+pub fn ref_be(bits: &[bool]) -> u128 {
+    bits.iter().fold(0u128, |a, b| (a << 1) | (*b as u128))
+}
+
+pub fn ref_le(bits: &[bool]) -> u128 {
+    let mut acc = 0u128;
+    for (k, ch) in bits.chunks(8).enumerate() {
+        acc |= ref_be(ch) << (8 * k);
+    }
+    acc
+}
+
+pub fn ref_uint(bits: &[bool], big: bool) -> u128 {
+    if big {
+        ref_be(bits)
+    } else {
+        ref_le(bits)
+    }
+}
+
+pub fn ref_sint(bits: &[bool], big: bool) -> i128 {
+    let n = bits.len();
+    let u = ref_uint(bits, big);
+    if n == 0 {
+        0
+    } else if n >= 128 {
+        u as i128
+    } else if u >> (n - 1) & 1 == 1 {
+        -(((1u128 << n) - u) as i128)
+    } else {
+        u as i128
+    }
+}
+
+fn ref_bytes(bits: &[bool]) -> Vec<u8> {
+    bits.chunks(8).map(|c| ref_be(c) as u8).collect()
+}
+
+/// reference cursor: what the property says the state must be
+pub struct RefCur {
+    pub stash: Vec<(Vec<bool>, i128)>,
+    pub big: bool,
+}
+
+fn cells_eq(a: &[Cell], b: &[Cell]) -> bool {
+    a.len() == b.len() && a.iter().zip(b).all(|(x, y)| canon::cell(x) == canon::cell(y))
+}
+
+fn arity(word: &str) -> usize {
+    match word {
+        "bits" | "bytes" | "uint" | "int" | "float" | "magic" | "seek" | "find" | "open-bitstr" => 1,
+        _ => 0,
+    }
+}
+
+fn as_usize(c: &Cell) -> Option<usize> {
+    match c.value() {
+        Cell::Int(i) if *i >= 0 && *i <= usize::MAX as i128 => Some(*i as usize),
+        _ => None,
+    }
+}
+
+fn tag_len(c: &Cell) -> Option<i128> {
+    match c.get_tag(&Cell::from("len")) {
+        Some(Cell::Int(i)) => Some(*i),
+        _ => None,
+    }
+}
+
+/// the property, stated on one step. `res` = Ok/Err text of the word, `b`/`a` = observation before/after.
+fn oracle_step(ctx: &mut Ctx, rc: &mut RefCur, word: &str, res: &Result<(), Xerr>, b: &Obs, a: &Obs, case: &str) {
+    let mut bad: Vec<String> = Vec::new();
+    let len_a = a.bits.len() as i128;
+    // offset inside the input, remain = end − offset — always
+    if !(0 <= a.rel() && a.rel() <= len_a) {
+        bad.push(format!("offset inside the input: rel={} len={}", a.rel(), len_a));
+    }
+    if a.remain != Some(len_a - a.rel()) {
+        bad.push(format!("remain = end - offset: remain={:?} len={} rel={}", a.remain, len_a, a.rel()));
+    }
+    if a.end < a.start || a.end - a.start != a.bits.len() {
+        bad.push("input length".into());
+    }
+    let ar = arity(word);
+    let nb = b.stack.len();
+    let top = b.stack.last();
+    let below = &b.stack[..nb.saturating_sub(ar)];
+    let rest_bits: &[bool] = if b.rel() >= 0 && (b.rel() as usize) <= b.bits.len() { &b.bits[b.rel() as usize..] } else { &[] };
+    let remain = rest_bits.len();
+    let is_open_close = matches!(word, "open-bitstr" | "close-bitstr");
+    match res {
+        Err(_) => {
+            // a failing word leaves input, offset and the rest of the data stack untouched
+            if a.bits != b.bits || a.start != b.start {
+                bad.push("failed word changed the input".into());
+            }
+            if a.offset != b.offset {
+                bad.push(format!("failed word moved the offset {} -> {}", b.offset, a.offset));
+            }
+            let ok_stack = (0..=ar.min(nb)).any(|j| cells_eq(&a.stack, &b.stack[..nb - j]));
+            if !ok_stack {
+                bad.push("failed word changed the stack below its own arguments".into());
+            }
+        }
+        Ok(()) => {
+            if !is_open_close && (a.bits != b.bits || a.start != b.start) {
+                bad.push("a word other than open/close changed the input".into());
+            }
+        }
+    }
+    // expectation whether the word must succeed, and what it must deliver
+    let mut must_ok: Option<bool> = None;
+    // (bits consumed, check on the pushed value)
+    let mut read: Option<(usize, Box<dyn Fn(&Cell) -> bool>)> = None;
+    let cur_big = rc.big;
+    let order_of = |w: &str| if w.ends_with("be") { true } else if w.ends_with("le") { false } else { cur_big };
+    match word {
+        "bits" | "bytes" => {
+            if ar > nb {
+                must_ok = Some(false)
+            } else if let Some(n) = as_usize(top.unwrap()) {
+                let nbits = if word == "bytes" { n.checked_mul(8) } else { Some(n) };
+                match nbits {
+                    Some(nbits) if nbits <= remain => {
+                        must_ok = Some(true);
+                        let want = rest_bits[..nbits].to_vec();
+                        read = Some((nbits, Box::new(move |c| matches!(c, Cell::Bitstr(s) if bits_vec(s) == want))));
+                    }
+                    _ => must_ok = Some(false),
+                }
+            } else {
+                must_ok = Some(false)
+            }
+        }
+        "uint" | "int" | "float" => {
+            if ar > nb {
+                must_ok = Some(false)
+            } else if let Some(n) = as_usize(top.unwrap()) {
+                let lim_ok = match word { "uint" => n <= 127, "int" => n <= 128, _ => n == 32 || n == 64 };
+                if n <= remain && lim_ok {
+                    must_ok = Some(true);
+                    let want = rest_bits[..n].to_vec();
+                    let big = cur_big;
+                    let w = word.to_string();
+                    read = Some((n, Box::new(move |c| value_ok(c, &w[..1], &want, big))));
+                } else {
+                    must_ok = Some(false)
+                }
+            } else {
+                must_ok = Some(false)
+            }
+        }
+        w if READ_FIXED.contains(&w) => {
+            let n: usize = w[1..].trim_end_matches(|c: char| c.is_alphabetic()).parse().unwrap();
+            if n <= remain {
+                must_ok = Some(true);
+                let want = rest_bits[..n].to_vec();
+                let big = order_of(w);
+                let k = match &w[..1] { "u" => "uint", "i" => "int", _ => "float" }.to_string();
+                read = Some((n, Box::new(move |c| value_ok(c, &k[..1], &want, big))));
+            } else {
+                must_ok = Some(false)
+            }
+        }
+        "magic" => {
+            if ar > nb {
+                must_ok = Some(false)
+            } else if let Cell::Bitstr(p) = top.unwrap().value() {
+                let pat = bits_vec(p);
+                if pat.len() <= remain && rest_bits[..pat.len()] == pat[..] {
+                    must_ok = Some(true);
+                    let n = pat.len();
+                    read = Some((n, Box::new(move |c| matches!(c, Cell::Bitstr(s) if bits_vec(s) == pat))));
+                } else {
+                    must_ok = Some(false)
+                }
+            } else {
+                must_ok = Some(false)
+            }
+        }
+        "seek" => {
+            if ar > nb {
+                must_ok = Some(false)
+            } else if let Some(p) = as_usize(top.unwrap()) {
+                let inside = b.start <= p && p <= b.end;
+                must_ok = Some(inside);
+                if inside && res.is_ok() {
+                    if a.offset != p as i128 {
+                        bad.push(format!("seek {} landed at {}", p, a.offset));
+                    }
+                    if !cells_eq(&a.stack, below) {
+                        bad.push("seek: stack".into());
+                    }
+                }
+            } else {
+                must_ok = Some(false)
+            }
+        }
+        "find" => {
+            if ar > nb || !matches!(top.unwrap().value(), Cell::Bitstr(_)) {
+                must_ok = Some(false)
+            } else if res.is_ok() {
+                let pat = match top.unwrap().value() { Cell::Bitstr(p) => bits_vec(p), _ => unreachable!() };
+                if a.offset != b.offset {
+                    bad.push("find moved the offset".into());
+                }
+                let occurs_at = |byte: usize| -> bool { let o = byte * 8; o + pat.len() <= remain && rest_bits[o..o + pat.len()] == pat[..] };
+                let first = (0..=remain / 8).find(|k| occurs_at(*k));
+                let want = match first { Some(k) => Cell::Int(b.offset + 8 * k as i128), None => Cell::Nil };
+                let mut exp = below.to_vec();
+                exp.push(want);
+                if !cells_eq(&a.stack, &exp) {
+                    bad.push(format!("find: expected {} on top", canon::cell(exp.last().unwrap())));
+                }
+                if pat.len() % 8 != 0 || remain % 8 != 0 {
+                    bad.push("find succeeded on a pattern/rest that is not a whole number of bytes".into());
+                }
+            }
+        }
+        "nulbytestr" | "cstr" => {
+            if remain % 8 != 0 {
+                must_ok = Some(false)
+            } else {
+                must_ok = Some(true);
+                let bytes = ref_bytes(rest_bits);
+                let n = match bytes.iter().position(|x| *x == 0) { Some(i) => i + 1, None => bytes.len() };
+                let want_bits = rest_bits[..8 * n].to_vec();
+                let text: String = bytes.iter().take_while(|x| **x != 0).map(|x| *x as char).collect();
+                let is_c = word == "cstr";
+                read = Some((8 * n, Box::new(move |c| if is_c { matches!(c, Cell::Str(s) if s.as_str() == text) } else { matches!(c, Cell::Bitstr(s) if bits_vec(s) == want_bits) })));
+            }
+        }
+        "remain" | "offset" | "input" => {
+            must_ok = Some(true);
+            if res.is_ok() {
+                let want = match word {
+                    "remain" => Cell::Int(remain as i128),
+                    "offset" => Cell::Int(b.offset),
+                    _ => Cell::Bitstr(bitstr_from_bits(&b.bits)),
+                };
+                let mut exp = below.to_vec();
+                exp.push(want);
+                if !cells_eq(&a.stack, &exp) || a.offset != b.offset {
+                    bad.push(format!("{}: wrong value or moved", word));
+                }
+            }
+        }
+        "big" | "little" => {
+            must_ok = Some(true);
+            if res.is_ok() {
+                rc.big = word == "big";
+                if !cells_eq(&a.stack, &b.stack) || a.offset != b.offset {
+                    bad.push("byte-order word changed cursor or stack".into());
+                }
+            }
+        }
+        "open-bitstr" => {
+            if ar > nb || !matches!(top.unwrap().value(), Cell::Bitstr(_)) {
+                must_ok = Some(false)
+            } else {
+                must_ok = Some(true);
+                if res.is_ok() {
+                    let newb = match top.unwrap().value() { Cell::Bitstr(p) => bits_vec(p), _ => unreachable!() };
+                    if a.bits != newb || a.rel() != 0 || !cells_eq(&a.stack, below) {
+                        bad.push("open-bitstr: new input / offset / stack".into());
+                    }
+                    rc.stash.push((b.bits.clone(), b.rel()));
+                }
+            }
+        }
+        "close-bitstr" => {
+            must_ok = Some(!rc.stash.is_empty());
+            if res.is_ok() {
+                match rc.stash.pop() {
+                    Some((bits, rel)) => {
+                        if a.bits != bits || a.rel() != rel || !cells_eq(&a.stack, &b.stack) {
+                            bad.push(format!("close-bitstr did not restore the previous input/offset (LIFO): want len {} rel {}, got len {} rel {}", bits.len(), rel, a.bits.len(), a.rel()));
+                        }
+                    }
+                    None => bad.push("close-bitstr succeeded on an empty stash".into()),
+                }
+            }
+        }
+        _ => {}
+    }
+    if let Some(m) = must_ok {
+        if m != res.is_ok() {
+            bad.push(format!("word must {} here but it {}", if m { "succeed" } else { "fail" }, if res.is_ok() { "succeeded".to_string() } else { format!("failed with {}", canon::err(res.as_ref().unwrap_err())) }));
+        }
+    }
+    if let (Some((n, chk)), Ok(())) = (&read, res) {
+        // a successful read of n bits returns bits [offset, offset+n) and moves the offset by exactly n
+        if a.offset != b.offset + *n as i128 {
+            bad.push(format!("read of {} bits moved the offset by {}", n, a.offset - b.offset));
+        }
+        if a.stack.len() != below.len() + 1 || !cells_eq(&a.stack[..below.len()], below) {
+            bad.push("read: rest of the stack changed".into());
+        } else if !chk(a.stack.last().unwrap()) {
+            bad.push(format!("read returned {} which is not the value of bits [offset, offset+{})", canon::cell(a.stack.last().unwrap()), n));
+        }
+    }
+    if bad.is_empty() {
+        ctx.oracle_ok();
+    } else {
+        ctx.oracle_fail(case.to_string(), bad.join("; "), format!("{} -> {}", word, match res { Ok(()) => "ok".to_string(), Err(e) => canon::err(e) }));
+    }
+}
+
+/// value pushed by a numeric read against the reference decoders
+fn value_ok(c: &Cell, kind: &str, want: &[bool], big: bool) -> bool {
+    if tag_len(c) != Some(want.len() as i128) {
+        return false;
+    }
+    let big_tag = c.get_tag(&Cell::from("big")).is_some();
+    if big_tag != big {
+        return false;
+    }
+    match (kind, c.value()) {
+        ("u", Cell::Int(i)) => *i >= 0 && *i as u128 == ref_uint(want, big),
+        ("i", Cell::Int(i)) => *i == ref_sint(want, big),
+        ("f", Cell::Real(r)) => {
+            let by = ref_bytes(want);
+            let exp: f64 = if want.len() == 32 {
+                let a = [by[0], by[1], by[2], by[3]];
+                (if big { f32::from_be_bytes(a) } else { f32::from_le_bytes(a) }) as f64
+            } else {
+                let a = [by[0], by[1], by[2], by[3], by[4], by[5], by[6], by[7]];
+                if big { f64::from_be_bytes(a) } else { f64::from_le_bytes(a) }
+            };
+            (exp.is_nan() && r.is_nan()) || exp.to_bits() == r.to_bits()
+        }
+        _ => false,
+    }
+}
+
+pub struct Runner {
+    pub xs: Xstate,
+    pub toks: Vec<String>,
+    pub reports: Vec<String>,
+    prev_in: Vec<bool>,
+    prev_ds: Vec<String>,
+    pub dead: bool,
+}
+
+impl Runner {
+    pub fn new(base: &Xstate) -> Runner {
+        Runner { xs: base.clone(), toks: vec![], reports: vec![], prev_in: vec![], prev_ds: vec![], dead: false }
+    }
+
+    pub fn push(&mut self, c: Cell) {
+        self.toks.push(format!("p:{}", canon::cell(&c)));
+        self.xs.push_data(c).unwrap();
+    }
+
+    /// run one word; returns (result, observation after) — None when the implementation panicked
+    pub fn word(&mut self, word: &str, tok: String) -> Option<(Result<(), Xerr>, Obs)> {
+        self.toks.push(tok);
+        let xs = &mut self.xs;
+        let res = crate::guarded(|| xs.eval(word));
+        let obs = match &res { Some(_) => observe(&mut self.xs), None => None };
+        match (res, obs) {
+            (Some(res), Some(obs)) => {
+                let st = match &res { Ok(()) => "ok".to_string(), Err(e) => format!("err:{}", canon::err(e)) };
+                self.report(&st, &obs);
+                Some((res, obs))
+            }
+            _ => {
+                self.reports.push("panic".into());
+                self.dead = true;
+                None
+            }
+        }
+    }
+
+    pub fn report(&mut self, st: &str, obs: &Obs) {
+        let ds: Vec<String> = obs.stack.iter().map(|c| canon::cell(c)).collect();
+        let k = self.prev_ds.iter().zip(ds.iter()).take_while(|(a, b)| a == b).count();
+        let mut line = format!(
+            "{} {} {} {} k{}",
+            st,
+            obs.rel(),
+            obs.remain.map(|r| r.to_string()).unwrap_or("?".into()),
+            if obs.bits == self.prev_in { "=".to_string() } else { bits_str(&obs.bits) },
+            k
+        );
+        for c in &ds[k..] {
+            line.push(' ');
+            line.push_str(c);
+        }
+        self.reports.push(line);
+        self.prev_in = obs.bits.clone();
+        self.prev_ds = ds;
+    }
+}
+
+fn tag_of_result(res: &Result<(), Xerr>) -> String {
+    match res {
+        Ok(()) => "ok".into(),
+        Err(e) => canon::err(e).split(':').next().unwrap().to_string(),
+    }
+}
+
+fn one_sequence(ctx: &mut Ctx, base: &Xstate, nops: usize) {
+    let mut rn = Runner::new(base);
+    let mut rc = RefCur { stash: vec![], big: false };
+    let mut obs = observe(&mut rn.xs).unwrap();
+    // open a generated input first (90 %), otherwise start on the empty boot input
+    let mut pending_open = ctx.rng.chance(92);
+    let mut steps = 0;
+    while steps < nops && !rn.dead {
+        steps += 1;
+        let r = &mut ctx.rng;
+        let remain = (obs.bits.len() as i128 - obs.rel()).max(0) as usize;
+        let rest: Vec<bool> = obs.bits[obs.bits.len() - remain..].to_vec();
+        let malformed = r.chance(12);
+        let word: String = if pending_open {
+            pending_open = false;
+            "open-bitstr".into()
+        } else if remain == 0 && r.chance(55) {
+            // nothing left to read: move back, open something else, or close
+            match r.below(10) {
+                0..=4 => "seek".into(),
+                5..=7 => "open-bitstr".into(),
+                _ => "close-bitstr".into(),
+            }
+        } else {
+            match r.below(100) {
+                0..=11 => "bits".into(),
+                12..=17 => "bytes".into(),
+                18..=31 => {
+                    // mostly a width that still fits
+                    let fits: Vec<&&str> = READ_FIXED.iter().filter(|w| w[1..].trim_end_matches(|c: char| c.is_alphabetic()).parse::<usize>().unwrap() <= remain).collect();
+                    if !fits.is_empty() && r.chance(75) { r.pick(&fits).to_string() } else { r.pick(READ_FIXED).to_string() }
+                }
+                32..=37 => "uint".into(),
+                38..=43 => "int".into(),
+                44..=47 => "float".into(),
+                48..=55 => "magic".into(),
+                56..=65 => "seek".into(),
+                66..=72 => "find".into(),
+                73..=75 => "remain".into(),
+                76..=78 => "nulbytestr".into(),
+                79..=82 => "cstr".into(),
+                83..=87 => "open-bitstr".into(),
+                88..=92 => "close-bitstr".into(),
+                93..=94 => "big".into(),
+                95..=96 => "little".into(),
+                97 => "offset".into(),
+                98 => "input".into(),
+                _ => "bits".into(),
+            }
+        };
+        // argument
+        let top_is_int = matches!(obs.stack.last().map(|c| c.value().clone()), Some(Cell::Int(_)));
+        let top_is_bitstr = matches!(obs.stack.last().map(|c| c.value().clone()), Some(Cell::Bitstr(_)));
+        let mut argkind = "none";
+        if arity(&word) == 1 {
+            if malformed {
+                if r.chance(35) {
+                    argkind = "as-is"; // whatever is (or is not) on the stack
+                } else {
+                    argkind = "wrong-type";
+                    let c = wrong_type(r);
+                    rn.push(c);
+                }
+            } else {
+                match word.as_str() {
+                    "bits" | "bytes" => {
+                        if top_is_int && r.chance(15) {
+                            argkind = "from-stack";
+                        } else {
+                            let c = gen_size(r, remain, if word == "bytes" { 8 } else { 1 });
+                            argkind = size_class(&c, remain, if word == "bytes" { 8 } else { 1 });
+                            rn.push(c);
+                        }
+                    }
+                    "uint" | "int" => {
+                        let c = gen_width(r, remain);
+                        argkind = size_class(&c, remain, 1);
+                        rn.push(c);
+                    }
+                    "float" => {
+                        let c = gen_float_width(r);
+                        argkind = size_class(&c, remain, 1);
+                        rn.push(c);
+                    }
+                    "magic" => {
+                        let pat: Vec<bool> = match r.below(10) {
+                            0..=4 => { argkind = "match"; rest[..r.below(remain.min(40) + 1)].to_vec() }
+                            5 | 6 => {
+                                argkind = "mismatch";
+                                let mut p = rest[..r.below(remain.min(40) + 1)].to_vec();
+                                if p.is_empty() { p.push(r.bool()); } else { let i = r.below(p.len()); p[i] = !p[i]; }
+                                p
+                            }
+                            7 => { argkind = "longer-than-rest"; let mut p = rest.clone(); for _ in 0..1 + r.below(9) { p.push(r.bool()); } p }
+                            8 => { argkind = "whole-rest"; rest.clone() }
+                            _ => { argkind = "random"; gen_bits(r, 20) }
+                        };
+                        let pre = r.below(9);
+                        let c = Cell::Bitstr(embed(r, &pat, pre, 0));
+                        rn.push(c);
+                    }
+                    "seek" => {
+                        let len = obs.bits.len();
+                        let v: i128 = match r.below(14) {
+                            0..=5 => { argkind = "in-range"; (obs.start + r.below(len + 1)) as i128 }
+                            6 => { argkind = "end-exact"; obs.end as i128 }
+                            7 => { argkind = "end+1"; obs.end as i128 + 1 }
+                            8 => { argkind = "start"; obs.start as i128 }
+                            9 => { argkind = "start-1"; obs.start as i128 - 1 }
+                            10 => { argkind = "byte-aligned"; ((obs.start + r.below(len + 1)) / 8 * 8) as i128 }
+                            11 => { argkind = "beyond"; obs.end as i128 + 2 + r.below(100) as i128 }
+                            _ => { argkind = "huge/negative"; huge(r) }
+                        };
+                        rn.push(Cell::Int(v));
+                    }
+                    "find" => {
+                        let nb = remain / 8;
+                        let pat: Vec<bool> = match r.below(10) {
+                            0..=4 if nb > 0 => {
+                                argkind = "present";
+                                let at = r.below(nb);
+                                let l = 1 + r.below((nb - at).min(3));
+                                rest[8 * at..8 * (at + l)].to_vec()
+                            }
+                            5 => { argkind = "empty"; vec![] }
+                            6 => { argkind = "not-bytes"; gen_bits(r, 20) }
+                            7 if remain >= 12 => { argkind = "present-unaligned"; rest[4..12].to_vec() }
+                            _ => { argkind = "random-bytes"; (0..8 * (1 + r.below(2))).map(|_| r.bool()).collect() }
+                        };
+                        let pre = r.below(9);
+                        let c = Cell::Bitstr(embed(r, &pat, pre, 0));
+                        rn.push(c);
+                    }
+                    "open-bitstr" => {
+                        if top_is_bitstr && r.chance(50) {
+                            argkind = "from-stack";
+                        } else {
+                            argkind = "fresh";
+                            let c = Cell::Bitstr(gen_input(r));
+                            rn.push(c);
+                        }
+                    }
+                    _ => {}
+                }
+            }
+        }
+        let before = observe(&mut rn.xs).unwrap();
+        let tok = if word == "open-bitstr" {
+            let st = match before.stack.last().map(|c| c.value().clone()) { Some(Cell::Bitstr(b)) => b.start(), _ => 0 };
+            format!("open-bitstr@{}", st)
+        } else {
+            word.clone()
+        };
+        let case = format!("C06 {} {}", rn.toks.join(" "), tok);
+        let wclass = if READ_FIXED.contains(&word.as_str()) { format!("{}N", &word[..1]) } else { word.clone() };
+        ctx.tag(&format!("word:{}", wclass));
+        if argkind != "none" {
+            ctx.tag(&format!("arg:{}:{}", wclass, argkind));
+        }
+        ctx.tag(&format!("align:start%8={}", before.start % 8));
+        match rn.word(&word, tok) {
+            Some((res, after)) => {
+                ctx.tag(&format!("outcome:{}:{}", wclass, tag_of_result(&res)));
+                oracle_step(ctx, &mut rc, &word, &res, &before, &after, &case);
+                obs = after;
+            }
+            None => {
+                ctx.tag("outcome:panic");
+                ctx.oracle_fail(case, "a result or an error value, never a panic".into(), "panic".into());
+            }
+        }
+    }
+    // drain the stash: close must restore every suspended input in LIFO order, then fail
+    let mut guard = 0;
+    while !rn.dead && guard < 64 {
+        guard += 1;
+        let before = observe(&mut rn.xs).unwrap();
+        let case = format!("C06 {} close-bitstr", rn.toks.join(" "));
+        match rn.word("close-bitstr", "close-bitstr".into()) {
+            Some((res, after)) => {
+                let stop = res.is_err();
+                oracle_step(ctx, &mut rc, "close-bitstr", &res, &before, &after, &case);
+                if stop {
+                    break;
+                }
+            }
+            None => ctx.oracle_fail(case, "no panic".into(), "panic".into()),
+        }
+    }
+    ctx.tag(&format!("seq-len:{}", (rn.reports.len() / 5) * 5));
+    ctx.case(format!("C06 {}", rn.toks.join(" ")), rn.reports.join(" | "));
+}
+
+fn size_class(c: &Cell, remain: usize, unit: usize) -> &'static str {
+    match c.value() {
+        Cell::Int(i) if *i < 0 => "negative",
+        Cell::Int(i) if *i > usize::MAX as i128 => ">usize",
+        Cell::Int(i) if *i >= 1 << 31 => "huge",
+        Cell::Int(i) => {
+            let n = *i as usize;
+            let units = remain / unit;
+            if n == units { "end-exact" } else if n == units + 1 { "end+1" } else if n < units { "in-range" } else { "beyond" }
+        }
+        _ => "wrong-type",
+    }
+}
+
+pub fn run(ctx: &mut Ctx) {
+    let base = Xstate::boot().unwrap();
+    for _ in 0..ctx.n {
+        let nops = 3 + ctx.rng.below(18);
+        one_sequence(ctx, &base, nops);
+    }
+}
